@@ -10,11 +10,20 @@ package redis
 // go-redis: the commands are assumed contracts returning arbitrary results).  What is checked: every record that
 // is encoded for a write command (rec2db is called for nothing else) carries a version that was not yet issued
 // when the method was entered - i.e. one this very call obtained from ulidutils.NewID.
+//
+// C06, Redis part ("an expired record is a deleted record" is the server's TTL): every SET/SETNX is handed the TTL
+// that belongs to the record just encoded - none iff it has no ExpiresAt, else ExpiresAt minus the clock reading,
+// at least a millisecond (a non-positive TTL would make go-redis send none) - and MSET, which carries no TTLs, is
+// never used in a call that encoded an expiring record.
 
 // the codec is trusted (protobuf); encoding for a write demands a version issued during the calling method
 //@ assumed func rec2db(r *kvs.Record) []byte
 //@   requires r != nil
 //@   requires [C02] freshversion: !in(r.Version, atEntry(issued))
+// [C06] what the TTL of the write command has to match (see go-redis in /verif/contracts/stdlib.spec)
+//@   modifies encHas, encAt, encExpiring
+//@   ensures encHas == (r.ExpiresAt != nil) && (r.ExpiresAt != nil ==> encAt == *r.ExpiresAt)
+//@   ensures encExpiring == old(encExpiring) + ite(r.ExpiresAt != nil, 1, 0)
 // decoding: the version of the decoded record comes out of the bytes decoded (verSource)
 //@ spec verSource(v string) ref = uninterpreted
 //@ assumed func db2rec(buf []byte) kvs.Record
@@ -26,12 +35,16 @@ package redis
 //@ func checkErr(err error) error
 //@   props C02
 //@   ensures (r0 == nil) == (err == nil) && (r0 == err || r0 == errors.ErrNotExist)
-//@ assumed func expiration(eat *time.Time, curT time.Time) time.Duration
+// [C06] the TTL of a record: none without ExpiresAt, else the remaining life time, at least a millisecond
+//@ func expiration(eat *time.Time, curT time.Time) time.Duration
+//@   props C06
+//@   ensures eat == nil ==> r0 == 0
+//@   ensures eat != nil ==> r0 == ttlFor(true, *eat, curT)
 
 //@ func (c *client) Create(ctx context.Context, record kvs.Record) (string, error)
-//@   props C02 C03
+//@   props C02 C03 C06
 //@   requires c != nil && c.rdb != nil
-//@   modifies issued, clock, redisGets
+//@   modifies issued, clock, redisGets, encHas, encAt, encExpiring
 //@   ensures r1 == nil ==> !in(r0, old(issued)) && r0 != ""
 // [C03] "Create fails with ErrExist and reports the stored version": the stored record is looked up, and a version
 // reported with ErrExist was decoded from a value read for this record's key
@@ -39,22 +52,22 @@ package redis
 //@   ensures [C03] existing: r1 == errors.ErrExist && r0 != "" ==> readKey(verSource(r0)) == rkeyOf(record.Key)
 
 //@ func (c *client) Put(ctx context.Context, record kvs.Record) (kvs.Record, error)
-//@   props C02
+//@   props C02 C06
 //@   requires c != nil && c.rdb != nil
-//@   modifies issued, clock
+//@   modifies issued, clock, encHas, encAt, encExpiring
 //@   ensures !in(r0.Version, old(issued)) && forall(v, string, in(v, old(issued)) ==> in(v, issued))
 
 //@ func (c *client) PutMany(ctx context.Context, records []kvs.Record) error
-//@   props C02
+//@   props C02 C06
 //@   requires c != nil && c.rdb != nil
-//@   modifies issued, clock
+//@   modifies issued, clock, encHas, encAt, encExpiring
 //@   loop 1
-//@     invariant c != nil && c.rdb != nil && forall(v, string, in(v, old(issued)) ==> in(v, issued)) && records == records0 && 0 - 1 <= rangeindex && rangeindex <= len(records) - 1 && fresh(mset)
+//@     invariant c != nil && c.rdb != nil && forall(v, string, in(v, old(issued)) ==> in(v, issued)) && records == records0 && 0 - 1 <= rangeindex && rangeindex <= len(records) - 1 && fresh(mset) && encExpiring == old(encExpiring)
 //@   loop 2
 //@     invariant c != nil && c.rdb != nil && forall(v, string, in(v, old(issued)) ==> in(v, issued)) && records == records0 && 0 - 1 <= rangeindex_2 && rangeindex_2 <= len(records) - 1
 
 // the optimistic transaction body of CasByVersion (run by rdb.Watch): the record written carries a new version
 //@ func (c *client) CasByVersion__1(tx *redis.Tx) error
-//@   props C02
+//@   props C02 C06
 //@   requires tx != nil
 //@   modifies everything
